@@ -17,6 +17,10 @@ from .. import meshops as mo
 from ..topo import REF, Topo, KIND_OF_CLASS, geometry_problems, mesh_measure
 
 ID = 'C18'
+# sub-checks added after the seeded-change waves (DESIGN.md sections 5 and 6)
+EXTENSIONS = [
+    'scrambled / reversed line meshes in extrusion; joins that keep unused vertices; join with the reflection (+0.0 / -0.0); joins in a 2^-7 length unit; descending / list restrict forms; chained @; to_meshtri with one kind of tag only; restricting to an empty tag is not a legal input',
+]
 LEVEL = 'model_checking'
 TECHNIQUE = "explicit-state BFS over compositions of mesh operations; exact geometric transition relation per operation; tag saturation"
 LEVEL_TEXT = ("States are real meshes with saturated tags; transitions are the real operations restrict / remove_elements (ALL "
